@@ -35,7 +35,11 @@ func (g *aspGen) enterReeval() []flagSnap {
 func (g *aspGen) exitReeval(snap []flagSnap) {
 	for _, s := range snap {
 		if s.v.writes == s.writes {
+			marks := s.v.amarks
 			*s.v = s.copy
+			if marks != s.copy.amarks {
+				s.v.aliased, s.v.amarks = true, marks
+			}
 		}
 	}
 }
@@ -101,7 +105,7 @@ func (g *aspGen) pattern(ind int) {
 		x := g.newListVar(ind, 2)
 		y := g.name("l")
 		g.emit(ind, y+" = "+x.name)
-		x.aliased = true
+		g.alias(x)
 		yv := g.declare(y, lt, g.varEx(x))
 		yv.folded = x.folded
 		g.emit(ind, x.name+"[0] = "+g.intExpr(1).s)
@@ -190,7 +194,7 @@ func (g *aspGen) pattern(ind int) {
 		g.emit(ind, m+" = ["+x.name+", "+x.name+", ["+strconv.Itoa(g.n(0, 9, "e"))+"]]")
 		g.emit(ind, q+" = "+m+"["+strconv.Itoa(g.n(0, 2, "mi"))+"]")
 		g.emit(ind, q+"[0] = "+g.intExpr(1).s)
-		x.aliased = true
+		g.alias(x)
 		mv := g.declare(m, AspListOf(lt), ex{fresh: true, ln: 3})
 		qv := g.declare(q, lt, ex{fresh: false, ln: -1})
 		mv.folded, qv.folded = x.folded, true
@@ -215,7 +219,7 @@ func (g *aspGen) pattern(ind int) {
 		g.op(pAdd)
 		g.emit(ind+1, "return "+p)
 		g.emit(ind, r+" = "+f+"("+x.name+")")
-		x.aliased = true
+		g.alias(x)
 		rv := g.declare(r, lt, ex{fresh: false, ln: x.ln})
 		rv.folded = x.folded
 		g.meta.Aliasing = true
